@@ -32,7 +32,11 @@ import (
 //	    turn  = <emits>:<end>[:bad]   emits = number of EmitMap calls the handler makes (0,1,2)
 //	            end = ok | err | panic | fin | cancel (the client sends a cancel batch instead of an input)
 //	            bad = this turn's f64 input is fractional (cast fails)
-//	<shm> = 1: the call advertises a shared-memory segment (pipe only), results travel as pointers
+//	    wire two = two float64 columns for a declared (int64,int64) input: the first casts, the second fails when bad
+//	castin <wire> <bad>    castRecordBatch on an input the framework allocator built, through the hook
+//	<shm> = 1: the call advertises a roomy shared-memory segment (pipe only), results travel as pointers;
+//	        2 (producers): wide-schema producer + a segment sized between AllocateAndWrite's estimate and
+//	        the exact stored size, so every result passes the pre-check and falls back at the allocation
 //
 // Observation per call: the outstanding byte count seen by the handler at the start of every turn
 // (relative to the baseline before the call) and the count after the call has completed.
@@ -98,6 +102,17 @@ var (
 )
 
 var c41ValueSchema = arrow.NewSchema([]arrow.Field{{Name: "value", Type: arrow.PrimitiveTypes.Int64}}, nil)
+
+// two-column exchange input: declared (a int64, b int64); the client sends (a float64, b float64), so
+// column a needs and passes a cast and column b fails the safe cast when its value is fractional
+var c41TwoSchema = arrow.NewSchema([]arrow.Field{{Name: "a", Type: arrow.PrimitiveTypes.Int64}, {Name: "b", Type: arrow.PrimitiveTypes.Int64}}, nil)
+var c41TwoWire = arrow.NewSchema([]arrow.Field{{Name: "a", Type: arrow.PrimitiveTypes.Float64}, {Name: "b", Type: arrow.PrimitiveTypes.Float64}}, nil)
+
+// an output schema whose schema message alone is larger than the 4096 bytes of slack in
+// AllocateAndWrite's capacity estimate: with a segment sized between the estimate and the exact
+// stored size the pre-check passes and the exact-size allocation is refused
+var c41WideSchema = arrow.NewSchema([]arrow.Field{{Name: "value", Type: arrow.PrimitiveTypes.Int64,
+	Metadata: arrow.NewMetadata([]string{"doc"}, []string{strings.Repeat("w", 6000)})}}, nil)
 
 func c41Sample() {
 	n, _ := c41Outstanding()
@@ -169,6 +184,12 @@ func c41Server() *vgirpc.Server {
 	vgirpc.Exchange(s, "xch", c41ValueSchema, c41ValueSchema, func(_ context.Context, _ *vgirpc.CallContext, p c41Params) (*vgirpc.StreamResult, error) {
 		return &vgirpc.StreamResult{OutputSchema: c41ValueSchema, InputSchema: c41ValueSchema, State: &c41Xch{}}, nil
 	})
+	vgirpc.Exchange(s, "xch2", c41ValueSchema, c41TwoSchema, func(_ context.Context, _ *vgirpc.CallContext, p c41Params) (*vgirpc.StreamResult, error) {
+		return &vgirpc.StreamResult{OutputSchema: c41ValueSchema, InputSchema: c41TwoSchema, State: &c41Xch{}}, nil
+	})
+	vgirpc.Producer(s, "prodwide", c41WideSchema, func(_ context.Context, _ *vgirpc.CallContext, p c41Params) (*vgirpc.StreamResult, error) {
+		return &vgirpc.StreamResult{OutputSchema: c41WideSchema, State: &c41Prod{}}, nil
+	})
 	return s
 }
 
@@ -189,6 +210,9 @@ func c41ParamsBatch(schema *arrow.Schema, n int64) arrow.RecordBatch {
 }
 
 func c41WireSchema(wire string) *arrow.Schema {
+	if wire == "two" {
+		return c41TwoWire
+	}
 	var dt arrow.DataType = arrow.PrimitiveTypes.Int64
 	switch wire {
 	case "i32":
@@ -202,6 +226,25 @@ func c41WireSchema(wire string) *arrow.Schema {
 }
 
 func c41InputBatch(schema *arrow.Schema, wire string, i int, bad bool, md *arrow.Metadata) arrow.RecordBatch {
+	if wire == "two" {
+		cols := make([]arrow.Array, 2)
+		for k := range cols {
+			fb := array.NewFloat64Builder(c41ClientMem)
+			v := float64(i)
+			if k == 1 && bad {
+				v += 0.5
+			}
+			fb.Append(v)
+			cols[k] = fb.NewArray()
+			fb.Release()
+		}
+		defer cols[0].Release()
+		defer cols[1].Release()
+		if md != nil {
+			return array.NewRecordBatchWithMetadata(schema, cols, 1, *md)
+		}
+		return array.NewRecordBatch(schema, cols, 1)
+	}
 	bl := array.NewBuilder(c41ClientMem, schema.Field(0).Type)
 	switch b := bl.(type) {
 	case *array.Int64Builder:
@@ -236,6 +279,46 @@ func c41Measure(build func() func()) int64 {
 	return mid - before
 }
 
+func c41DeclaredInput(wire string) *arrow.Schema {
+	if wire == "two" {
+		return c41TwoSchema
+	}
+	return c41ValueSchema
+}
+
+// c41FrameworkInput builds, with the framework allocator, the batch a client would send on this
+// wire (EmitMap knows int64/float64/string): what an externally resolved stream input looks like.
+func c41FrameworkInput(wire string, bad bool) (*vgirpc.OutputCollector, arrow.RecordBatch) {
+	oc := vgirpc.VerifC41NewCollector(c41WireSchema(wire), false)
+	frac := 0.0
+	if bad {
+		frac = 0.5
+	}
+	var data map[string][]interface{}
+	switch wire {
+	case "two":
+		data = map[string][]interface{}{"a": {float64(3)}, "b": {3 + frac}}
+	case "f64":
+		data = map[string][]interface{}{"value": {3 + frac}}
+	case "str":
+		data = map[string][]interface{}{"value": {"seven"}}
+	default:
+		data = map[string][]interface{}{"value": {int64(3)}}
+	}
+	if err := oc.EmitMap(data); err != nil {
+		panic(err)
+	}
+	return oc, vgirpc.VerifC41CollectorBatch(oc)
+}
+
+func c41EmitSizeOf(schema *arrow.Schema) int64 {
+	return c41Measure(func() func() {
+		oc := vgirpc.VerifC41NewCollector(schema, false)
+		_ = oc.EmitMap(map[string][]interface{}{"value": {int64(3)}})
+		return oc.VerifC41ReleaseBatches
+	})
+}
+
 func c41EmitSize() int64 {
 	return c41Measure(func() func() {
 		oc := vgirpc.VerifC41NewCollector(c41ValueSchema, false)
@@ -251,7 +334,7 @@ func c41CastSize(wire string) int64 {
 	return c41Measure(func() func() {
 		in := c41InputBatch(c41WireSchema(wire), wire, 3, false, nil)
 		defer in.Release()
-		out, err := vgirpc.VerifC41Cast(in, c41ValueSchema)
+		out, err := vgirpc.VerifC41Cast(in, c41DeclaredInput(wire))
 		if err != nil {
 			return func() {}
 		}
@@ -301,10 +384,13 @@ func c41Exec(c *Case) {
 	hsCap.SetMaxResponseBytes(600)
 	tsCap := httptest.NewServer(hsCap)
 	defer tsCap.Close()
-	var seg *vgirpc.ShmSegment
+	var seg, tight *vgirpc.ShmSegment
 	defer func() {
 		if seg != nil {
 			seg.Close()
+		}
+		if tight != nil {
+			tight.Close()
 		}
 	}()
 	ps, _, _, _, _ := vgirpc.VerifC36Schemas(srv, "echo")
@@ -319,6 +405,31 @@ func c41Exec(c *Case) {
 		shmKeys := func(on bool) ([]string, []string) {
 			if !on {
 				return nil, nil
+			}
+			if f[0] == "stream" && f[4] == "2" {
+				// a segment whose data area lies between the capacity estimate and the exact stored
+				// size of one wide-schema batch: pre-check passes, exact-size allocation is refused
+				oc := vgirpc.VerifC41NewCollector(c41WideSchema, true)
+				_ = oc.EmitMap(map[string][]interface{}{"value": {int64(3)}})
+				wb := vgirpc.VerifC41CollectorBatch(oc)
+				est := vgirpc.VerifC35EstimateSerializedSize(wb)
+				var full bytes.Buffer
+				fw := ipc.NewWriter(&full, ipc.WithSchema(wb.Schema()))
+				_ = fw.Write(wb)
+				_ = fw.Close()
+				oc.VerifC41ReleaseBatches()
+				if est+64 >= full.Len() {
+					panic(fmt.Sprintf("c41: wide schema not wide enough: estimate %d, stored %d", est, full.Len()))
+				}
+				if tight != nil {
+					tight.Close()
+				}
+				ts, err := vgirpc.ShmCreate(vgirpc.ShmHeaderSize + est + 64)
+				if err != nil {
+					panic(err)
+				}
+				tight = ts
+				return []string{vgirpc.MetaShmSegmentName, vgirpc.MetaShmSegmentSize}, []string{tight.Name(), strconv.Itoa(tight.Size())}
 			}
 			if seg == nil {
 				s, err := vgirpc.ShmCreate(vgirpc.ShmHeaderSize + 1<<20)
@@ -395,7 +506,7 @@ func c41Exec(c *Case) {
 			report(ml)
 		case "stream":
 			transport, kind, wire := f[1], f[2], f[3]
-			shm := f[4] == "1"
+			shm := f[4] != "0"
 			turns := c41ParseTurns(f[5])
 			c41Plan = nil
 			for _, t := range turns {
@@ -403,13 +514,20 @@ func c41Exec(c *Case) {
 					c41Plan = append(c41Plan, t)
 				}
 			}
-			ml := fmt.Sprintf("stream %s %s %s %s e=%d c=%d %s", transport, kind, wire, f[4], c41EmitSize(), c41CastSize(wire), f[5])
+			emitSize := c41EmitSize()
 			method := "prod"
 			inSchema := arrow.NewSchema(nil, nil)
 			if kind == "xch" {
 				method = "xch"
+				if wire == "two" {
+					method = "xch2"
+				}
 				inSchema = c41WireSchema(wire)
+			} else if f[4] == "2" {
+				method = "prodwide"
+				emitSize = c41EmitSizeOf(c41WideSchema)
 			}
+			ml := fmt.Sprintf("stream %s %s %s %s e=%d c=%d %s", transport, kind, wire, f[4], emitSize, c41CastSize(wire), f[5])
 			params := c41ParamsBatch(ps, 1)
 			cancelMD := arrow.NewMetadata([]string{vgirpc.MetaCancel}, []string{"true"})
 			if transport == "pipe" {
@@ -481,6 +599,36 @@ func c41Exec(c *Case) {
 			params.Release()
 			c.Stat("stream-" + transport + "-" + kind + "-" + wire)
 			report(ml)
+		case "castin":
+			// castRecordBatch on an input whose buffers are the framework's own (hook level: the
+			// path an externally resolved exchange input takes), then everything released
+			wire, bad := f[1], f[2] == "1"
+			inSize := c41Measure(func() func() {
+				oc, _ := c41FrameworkInput(wire, bad)
+				return oc.VerifC41ReleaseBatches
+			})
+			castSize := int64(0)
+			if !bad && wire != "str" && wire != "i64" {
+				castSize = c41Measure(func() func() {
+					in := c41InputBatch(c41WireSchema(wire), wire, 3, false, nil)
+					defer in.Release()
+					out, err := vgirpc.VerifC41Cast(in, c41DeclaredInput(wire))
+					if err != nil {
+						return func() {}
+					}
+					return out.Release
+				})
+			}
+			ml := fmt.Sprintf("castin %s %s e=%d c=%d", wire, f[2], inSize, castSize)
+			oc, in := c41FrameworkInput(wire, bad)
+			out, err := vgirpc.VerifC41Cast(in, c41DeclaredInput(wire))
+			c41Sample()
+			if err == nil {
+				out.Release()
+			}
+			oc.VerifC41ReleaseBatches()
+			c.Stat("castin-" + wire)
+			report(ml)
 		default:
 			c.Out(l, "err:bad-op")
 		}
@@ -505,6 +653,10 @@ func c41Gen(g *Gen) {
 	for i := 0; i < n; i++ {
 		var lines []string
 		for k := r.Range(2, 7); k > 0; k-- {
+			if r.Chance(8) {
+				lines = append(lines, fmt.Sprintf("castin %s %d", Pick(r, []string{"i64", "f64", "f64", "str", "two", "two"}), r.Intn(2)))
+				continue
+			}
 			if r.Chance(35) {
 				transport := Pick(r, []string{"pipe", "pipe", "http", "http", "httpcap"})
 				method := Pick(r, []string{"echo", "echo", "echo", "fail", "boom", "void", "badparams"})
@@ -519,11 +671,14 @@ func c41Gen(g *Gen) {
 			kind := Pick(r, []string{"prod", "xch", "xch"})
 			wire := "i64"
 			if kind == "xch" {
-				wire = Pick(r, []string{"i64", "i32", "i32", "f64", "f64", "str"})
+				wire = Pick(r, []string{"i64", "i32", "i32", "f64", "f64", "str", "two", "two"})
 			}
 			shm := 0
 			if transport == "pipe" && r.Chance(30) {
 				shm = 1
+				if kind == "prod" && r.Chance(50) {
+					shm = 2 // wide-schema producer on a segment that passes the pre-check but not the exact allocation
+				}
 			}
 			nt := r.Range(1, 6)
 			var turns []string
@@ -547,7 +702,7 @@ func c41Gen(g *Gen) {
 					end = "cancel"
 				}
 				ts := fmt.Sprintf("%d:%s", emits, end)
-				if wire == "f64" && r.Chance(15) {
+				if (wire == "f64" || wire == "two") && r.Chance(20) {
 					ts += ":bad"
 				}
 				turns = append(turns, ts)
